@@ -104,6 +104,10 @@ func (c *ChartDownloader) DownloadTo(ref, version, dest string) (string, *proven
 	}
 
 	name := filepath.Base(u.Path)
+	if name == "." || name == ".." || name == string(filepath.Separator) {
+		// the last element of the URL path does not name a file: joined to dest it would leave dest
+		return "", nil, errors.Errorf("cannot derive a file name from chart URL %q", u.String())
+	}
 	if u.Scheme == registry.OCIScheme {
 		idx := strings.LastIndexByte(name, ':')
 		name = fmt.Sprintf("%s-%s.tgz", name[:idx], name[idx+1:])
